@@ -327,6 +327,7 @@ pub struct MSink {
     pub contract: RefCell<Vec<String>>,
     pub errors: RefCell<Vec<String>>,
     pub quirks: Cell<QuirksMode>,
+    pub quirks_set: Cell<bool>,
     pub lines: RefCell<Vec<u64>>,
     pub doctypes: Cell<u32>,
     /// answer to attach_declarative_shadow
@@ -350,6 +351,7 @@ impl MSink {
             contract: RefCell::new(vec![]),
             errors: RefCell::new(vec![]),
             quirks: Cell::new(QuirksMode::NoQuirks),
+            quirks_set: Cell::new(false),
             lines: RefCell::new(vec![]),
             doctypes: Cell::new(0),
             shadow_answer,
@@ -685,6 +687,7 @@ impl TreeSink for MSink {
     }
     fn set_quirks_mode(&self, mode: QuirksMode) {
         self.quirks.set(mode);
+        self.quirks_set.set(true);
         if let Some(rc) = &self.rc {
             rc.set_quirks_mode(mode);
         }
